@@ -270,7 +270,7 @@ def slicewise(data, f):
 
 def check_ops(rep, algopy, rng, tier, terms, metas):
     UTPM = algopy.UTPM
-    n = 25 if tier == 'quick' else 300
+    n = 40 if tier == 'quick' else 400
 
     def rnd(D, P, shp, cx=False):
         a = numpy.array([rng.randint(-20, 20) / 4 for _ in range(D * P * int(numpy.prod(shp, dtype=int)))]).reshape((D, P) + tuple(shp))
@@ -303,9 +303,11 @@ def check_ops(rep, algopy, rng, tier, terms, metas):
             if numpy.size(yd) and not numpy.shares_memory(y.data, x.data):
                 rep.violation('op:%s:view' % key, '%s does not return a view of its operand' % name, dict(kind='op', case=meta))
 
-    for _ in range(n):
-        D = rng.randint(1, 3); P = rng.randint(1, 2)
-        shp = rng.choice(SHAPES)
+    for it in range(n):
+        D = rng.randint(1, 3); P = rng.randint(1, 3)
+        if it % 2 == 0:
+            D = max(D, 2); P = max(P, 2)          # several coefficient slices that differ
+        shp = SHAPES[it % len(SHAPES)]
         data = rnd(D, P, shp)
         nel = int(numpy.prod(shp, dtype=int))
         # reshape
@@ -326,8 +328,9 @@ def check_ops(rep, algopy, rng, tier, terms, metas):
         for axis in [None] + list(range(-len(shp), len(shp))):
             run('sum', 'sum', data, lambda x: algopy.sum(x, axis=axis), lambda a: numpy.sum(a, axis=axis), extra='axis=%r' % (axis,))
         run('x.sum()', 'sum', data, lambda x: x.sum(), lambda a: numpy.sum(a))
-        reps = rng.choice([2, (2,), (1, 2), (2, 1), (2, 2), (1, 1, 2), 3])
-        run('tile', 'tile', data, lambda x: algopy.tile(x, reps), lambda a: numpy.tile(a, reps), extra=repr(reps))
+        # every repetition pattern, in particular more repetition axes than the polynomial has (new leading axes)
+        for reps in [2, (2,), (1, 2), (2, 1), (2, 2), (1, 1, 2), 3, (2, 1, 1), (3, 1, 2), (2, 2, 1, 1)]:
+            run('tile', 'tile', data, lambda x, reps=reps: algopy.tile(x, reps), lambda a, reps=reps: numpy.tile(a, reps), extra=repr(reps))
         run('negative', 'negative', data, lambda x: -x, lambda a: -a)
         run('zeros_like', 'zeros', data, lambda x: algopy.zeros_like(x), lambda a: numpy.zeros_like(a))
         zshape = rng.choice([(2,), (2, 3), 3])
